@@ -26,7 +26,7 @@ INF = 1 << 20
 
 
 def scn(sym, cov, props, D, T=2, cancel=None, cancel2=None, toggle=None, stubborn=None, deadlines=(), redeadline=None,
-        shields="sym", in_child=False, eager=False, J=2, pre_cancel=None, helper=None, native_after=False, post0=False):
+        shields="sym", in_child=False, eager=False, J=2, pre_cancel=None, helper=None, native_after=False, post0=False, redeadline2=False, script=()):
     """props: set of property ids whose clauses are enforced.
     cancel / cancel2: level whose scope is cancelled by the environment at a symbolic instant (or None)
     toggle: (level, value): scope[level].shield = value at a symbolic instant
@@ -58,7 +58,13 @@ def scn(sym, cov, props, D, T=2, cancel=None, cancel2=None, toggle=None, stubbor
         evs.append({"kind": "shield", "level": toggle[0], "value": toggle[1], "t": sym.int("st", 0, 2 * T + 1), "j": sym.int("sj", 0, 1)})
     if redeadline is not None:
         evs.append({"kind": "deadline", "level": redeadline[0], "value": sym.int("nd", 0, 2 * T + 2), "inf": sym.bool("nd_inf"),
-                    "t": sym.int("rt", 0, 2 * T + 1), "j": sym.int("rj", 0, 1)})
+                    "t": sym.int("rt", 0, 2 * T + 1), "j": sym.int("rj", 0, min(J, 1))})
+    if redeadline is not None and redeadline2:
+        evs.append({"kind": "deadline", "level": redeadline[0], "value": sym.int("nd2", 0, 2 * T + 2), "inf": sym.bool("nd2_inf"),
+                    "t": sym.int("rt2", 0, 2 * T + 1), "j": 0})
+    for (kind, lv, val, tt, jj) in script:  # concrete, scripted environment actions
+        evs.append({"kind": kind, "level": lv, "value": val, "inf": val == "inf", "t": tt, "j": jj})
+    nsw = sym.int("nsw", 1, 3) if stubborn is not None else 0
     if native_after:
         nto = sym.int("nto", 0, T)  # asyncio.timeout(nto) around sleep(nsl) after the scopes
         nsl = sym.int("nsl", 0, T)
@@ -69,6 +75,7 @@ def scn(sym, cov, props, D, T=2, cancel=None, cancel2=None, toggle=None, stubbor
     timeline: list = []  # applied state changes: (cycle, tick, kind, level, value)
     state = {"task": None, "fired": []}
     viol: list = []
+    active: set = set()
 
     def bad(prop, clause, detail=None):
         if prop in props:
@@ -93,19 +100,23 @@ def scn(sym, cov, props, D, T=2, cancel=None, cancel2=None, toggle=None, stubbor
             rec["pout"] = len(timeline)
             if stubborn == level and not state.get("swallowed"):
                 state["swallowed"] = True
-                rec2 = {"level": level, "which": which + "+again", "w": 0, "cin": loop.cycles, "tin": loop.time(), "out": None, "pin": len(timeline)}
-                ops.append(rec2)
-                try:
-                    await anyio.sleep(0)
-                    rec2["out"] = "done"
-                except asyncio.CancelledError:
-                    rec2["out"] = "cancelled"
+                # swallow the cancellation nsw times; each further await must be interrupted again
+                for rep in range(nsw):
+                    rec2 = {"level": level, "which": which + "+again", "w": 0, "cin": loop.cycles, "tin": loop.time(), "out": None, "pin": len(timeline)}
+                    ops.append(rec2)
+                    try:
+                        await anyio.sleep(0)
+                        rec2["out"] = "done"
+                    except asyncio.CancelledError as exc:
+                        rec2["out"] = "cancelled"
+                        rec2["cout"], rec2["tout"] = now()
+                        rec2["pout"] = len(timeline)
+                        if rep == nsw - 1:
+                            raise
+                        continue
                     rec2["cout"], rec2["tout"] = now()
                     rec2["pout"] = len(timeline)
-                    raise
-                rec2["cout"], rec2["tout"] = now()
-                rec2["pout"] = len(timeline)
-                return
+                    return
             raise
         rec["cout"], rec["tout"] = now()
         rec["pout"] = len(timeline)
@@ -135,6 +146,7 @@ def scn(sym, cov, props, D, T=2, cancel=None, cancel2=None, toggle=None, stubbor
         try:
             with cm as scope:
                 scopes[i] = scope
+                active.add(i)
                 timeline.append((loop.cycles, loop.time(), "enter", i, (sh0[i], d)))
                 try:
                     await op(i, "pre", pre[i])
@@ -147,6 +159,7 @@ def scn(sym, cov, props, D, T=2, cancel=None, cancel2=None, toggle=None, stubbor
                 finally:
                     ex["cexit"], ex["texit"] = now()
                     ex["pexit"] = len(timeline)
+                    active.discard(i)
                     timeline.append((loop.cycles, loop.time(), "exit", i, None))
             ex["passed"] = False
         except asyncio.CancelledError:
@@ -165,8 +178,8 @@ def scn(sym, cov, props, D, T=2, cancel=None, cancel2=None, toggle=None, stubbor
     def fire(e):
         sc = scopes.get(e["level"])
         e["at"] = now()
-        if sc is None:
-            e["skipped"] = "not-entered"
+        if sc is None or e["level"] not in active:
+            e["skipped"] = "not-active"  # before entry or after exit: no action
             return
         if e["kind"] == "cancel":
             sc.cancel()
